@@ -223,47 +223,63 @@ Walk walk_exchange(const Exchange &x, bool first_pdu_of_conn)
 		curk = x.base_spki;
 	}
 	w.n_payload = (unsigned)items.size();
-	for (int pass = 0; pass < 3; pass++)
+	// each family in wire order up to its first violation (the families are independent of each other)
+	for (int pass = 0; pass < 3; pass++) {
+		size_t add0 = w.n_add, del0 = w.n_del;
 		for (auto &it : items) {
 			int want = pass == 0 ? PDU_IPV4 : pass == 1 ? PDU_IPV6 : PDU_ROUTER_KEY;
 			if (it.type != want)
 				continue;
+			const char *why = nullptr;
+			int code = 0;
 			if (it.flags > 1) {
-				fail(w, "flags", it.off, it.len, {0});
-				return w;
-			}
-			if (pass < 2) {
+				why = "flags";
+				code = 0;
+			} else if (pass < 2) {
 				PfxRec r = it.pfx;
 				if (it.flags == 1) {
-					if (!cur.insert(r).second) {
-						fail(w, "dup", it.off, it.len, {7});
-						return w;
-					}
-					w.n_add++;
+					if (!cur.insert(r).second)
+						why = "dup", code = 7;
+					else
+						w.n_add++;
 				} else {
-					if (!cur.erase(r)) {
-						fail(w, "unk", it.off, it.len, {6});
-						return w;
-					}
-					w.n_del++;
+					if (!cur.erase(r))
+						why = "unk", code = 6;
+					else
+						w.n_del++;
 				}
 			} else {
 				SpkiRec r = it.key;
 				if (it.flags == 1) {
-					if (!curk.insert(r).second) {
-						fail(w, "dup", it.off, it.len, {7});
-						return w;
-					}
-					w.n_add++;
+					if (!curk.insert(r).second)
+						why = "dup", code = 7;
+					else
+						w.n_add++;
 				} else {
-					if (!curk.erase(r)) {
-						fail(w, "unk", it.off, it.len, {6});
-						return w;
-					}
-					w.n_del++;
+					if (!curk.erase(r))
+						why = "unk", code = 6;
+					else
+						w.n_del++;
 				}
 			}
+			if (why) {
+				w.alts.push_back({why, it.off, it.len, {code}});
+				w.n_add = add0;
+				w.n_del = del0;
+				break;
+			}
 		}
+	}
+	if (!w.alts.empty()) {
+		const Walk::Alt &a = w.alts[0];
+		w.kind = WK_FAIL;
+		w.why = a.why;
+		w.off = a.off;
+		w.olen = a.olen;
+		w.codes = a.codes;
+		w.need_report = true;
+		return w;
+	}
 	w.kind = WK_OK;
 	w.new_pfx = cur;
 	w.new_spki = curk;
